@@ -55,7 +55,7 @@ CLAIMS = {
   note="The 'only if' direction (a record is rejected only for one of the listed reasons) and the read-footprint argument are not decided; composition over whole builds is informal (see C01).",
   ref="DESIGN.md 5 C05"),
  'C13': dict(
-  text="Deductive proof of the comparison primitives: _file_metadata returns exactly {size: st_size, timeNs: st_mtime_ns} of the file (IsADirectoryError / FileNotFoundError exactly for directories / missing paths); file_comparison_result dispatches METADATA/HASH and rejects other names with ValueError; _file_hash either hashes the file now and memoises (hash, built-flag) or serves a memo entry whose built-flag equals the current one and whose path is still a regular file; read returns that result only for virtual files; _is_build_file_cached is JsonUtil.is_equal(recorded, current-or-None) and implies the output exists; _rebuild_file records the result taken after the function returned; reuse records the current result.",
+  text="Deductive proof of the comparison primitives: _file_metadata returns exactly {size: st_size, timeNs: st_mtime_ns} of the file (IsADirectoryError / FileNotFoundError exactly for directories / missing paths); file_comparison_result dispatches METADATA/HASH and rejects other names with ValueError; _file_hash either hashes the file now and memoises (hash, built-flag) or serves a memo entry whose built-flag equals the current one and whose path is still a regular file; read returns that result only for virtual files; _is_build_file_cached is JsonUtil.is_equal(recorded, current-or-None) and implies the output exists; _rebuild_file records the result taken after the function returned; reuse records the current result; the public methods read_text/read_binary/declare_read (and list_dir, walk, is_file, is_dir, exists, get_size) are verified to record exactly one simple operation carrying the sanitized path and the name of the comparison kind that was asked for.",
   note="SHA-256 is an uninterpreted digest (content -> hash injectivity assumed); the memo invariant 'entry equals the hash of the current content' needs the history of writes and is not decided (design candidate M7); which bytes _file_hash feeds to the digest and the integer exactness of timeNs are pinned by the comparison_cases replay only (bounded), which decides when the body regresses or leaves the analysable subset.",
   ref="DESIGN.md 5 C13"),
  'C16': dict(
